@@ -13,6 +13,8 @@ func init() {
 		Pkgs: []string{"./cmd/emerge", "./internal/command", "./internal/generate/golang", "./internal/ebnf/lexer", "./internal/ebnf/parser",
 			"./internal/ebnf/parser/spec", "./internal/regex/parser", "./internal/regex/parser/nfa", "./internal/regex/parser/ast"},
 		Prepare: prepareAll,
+		// bounded stand-in for the dependency reader (see C13): only the non-termination class belongs to this property
+		Extra: func(c *CheckCtx) error { return conformInput(c, map[string]bool{"lexeme-loop-diverges": true}) },
 		OnlyContracted: true,
 		Select: []Selector{
 			{Units: `emerge/(cmd/emerge|internal/command|internal/generate/golang|internal/ebnf/lexer|internal/ebnf/parser|internal/ebnf/parser/spec|internal/regex/parser|internal/regex/parser/nfa|internal/regex/parser/ast)\.`, Kinds: safetyKinds},
